@@ -85,6 +85,16 @@ fn compare_all(elems: &[Elem], out: &Path, timeout: Duration) -> Vec<Compared> {
             pinned[*k] = fro[gi][n].clone();
         }
     }
+    // a difference seen through a batch run (files on disk) is confirmed on standard input, the way the working tree
+    // got the text: generated-file markers, module declarations and newline detection behave differently for files
+    let redo: Vec<usize> = (0..elems.len()).filter(|i| match &pinned[*i] { Some(p) => !(cur[*i].status == Status::Ok && (if cur[*i].out.is_empty() { elems[*i].src.as_bytes() } else { cur[*i].out.as_bytes() }) == &p[..]), None => false }).collect();
+    let again: Vec<Option<Vec<u8>>> = par_map(&redo, |i| {
+        let r = frozen(&elems[*i].src, &elems[*i].cfg, timeout);
+        if r.code == Some(0) && !r.timed_out { Some(r.stdout) } else { None }
+    });
+    for (i, a) in redo.iter().zip(again.into_iter()) {
+        pinned[*i] = a;
+    }
     cur.into_iter().zip(pinned.into_iter()).map(|(wt, pinned)| Compared { wt, pinned }).collect()
 }
 
@@ -314,6 +324,86 @@ pub fn run(tier: &str, seed: u64, out: &Path) -> i32 {
                     o.direct_failures.push(json!({"sig": "c09:differs-from-pinned-release", "what": format!("style edition {}: the working tree's text differs from the pinned release's", EDITIONS[e.edition]), "program": e.id, "config": cfg_text(&e.cfg), "edition": EDITIONS[e.edition], "src": e.src, "pinned": String::from_utf8_lossy(c.pinned.as_ref().unwrap()), "working_tree": wt_text(e, c), "working_tree_status": format!("{:?}", c.wt.status)}));
                 }
             }
+        }
+    }
+    // ---- which style edition is in force: the command line and configuration-file routes (version / edition /
+    //      style_edition in every combination) through the two binaries; the formatting code is not involved, the
+    //      resolution of the effective style edition is
+    {
+        let bin = std::env::var("RUSTFMT_BIN").unwrap_or_else(|_| std::env::current_exe().ok().and_then(|e| Some(e.parent()?.parent()?.parent()?.join("repo-target/debug/rustfmt").display().to_string())).unwrap_or_else(|| "/verif/.build/repo-target/debug/rustfmt".into()));
+        if Path::new(&bin).exists() {
+            // sources on which 2015 and 2024 differ (so that the edition in force shows in the text)
+            let srcs: Vec<String> = vec![
+                "use std::{a10, a9, A1, a1};\nfn main() {\n    let x = match y { 1 => { foo() }, _ => bar(), };\n}\n".to_string(),
+                "fn f() {\n    a_very_long_function_name_number_one(argument_one, argument_two).another_method_call(|x| { x + 1 }).third_call(some_struct { field_one: 1, field_two: 2 });\n}\nuse b::{B, a2, a10};\n".to_string(),
+            ];
+            let vals = ["-", "2015", "2018", "2021", "2024"];
+            let vers = ["-", "One", "Two"];
+            let mut combos: Vec<(usize, &str, &str, &str, usize)> = vec![];
+            for (si, _) in srcs.iter().enumerate() {
+                for v in vers {
+                    for e in vals {
+                        for se in vals {
+                            for route in 0..3usize {
+                                combos.push((si, v, e, se, route));
+                            }
+                        }
+                    }
+                }
+            }
+            let work = out.join("prec");
+            let _ = std::fs::create_dir_all(&work);
+            let results: Vec<(CliOut, CliOut)> = par_map(&combos, |(si, v, e, se, route)| {
+                let run = |exe: &str, tag: &str| -> CliOut {
+                    let d = work.join(format!("{}-{}-{}-{}-{}-{}", tag, si, v, e, se, route));
+                    let _ = std::fs::create_dir_all(&d);
+                    let mut cmd = Command::new(exe);
+                    cmd.current_dir(&d).arg("--emit").arg("stdout");
+                    let mut kv: Vec<String> = vec![];
+                    if *v != "-" { kv.push(format!("version={}", v)); }
+                    if *e != "-" { kv.push(format!("edition={}", e)); }
+                    if *se != "-" { kv.push(format!("style_edition={}", se)); }
+                    match route {
+                        0 => {
+                            // everything on --config
+                            cmd.arg("--config-path").arg("/verif/frozen/empty.toml");
+                            if !kv.is_empty() { cmd.arg("--config").arg(kv.join(",")); }
+                        }
+                        1 => {
+                            // everything in a configuration file
+                            let toml: String = kv.iter().map(|x| { let (k, val) = x.split_once('=').unwrap(); format!("{} = \"{}\"\n", k, val) }).collect();
+                            let _ = std::fs::write(d.join("cfg.toml"), toml);
+                            cmd.arg("--config-path").arg(d.join("cfg.toml"));
+                        }
+                        _ => {
+                            // version in a file, the two editions as dedicated flags
+                            let toml = if *v != "-" { format!("version = \"{}\"\n", v) } else { String::new() };
+                            let _ = std::fs::write(d.join("cfg.toml"), toml);
+                            cmd.arg("--config-path").arg(d.join("cfg.toml"));
+                            if *e != "-" { cmd.arg("--edition").arg(e); }
+                            if *se != "-" { cmd.arg("--style-edition").arg(se); }
+                        }
+                    }
+                    let r = run_cmd(&mut cmd, srcs[*si].as_bytes(), Duration::from_secs(20));
+                    let _ = std::fs::remove_dir_all(&d);
+                    r
+                };
+                (run(&bin, "wt"), run("/verif/frozen/rustfmt-pinned", "pin"))
+            });
+            let _ = std::fs::remove_dir_all(&work);
+            for ((si, v, e, se, route), (w, p)) in combos.iter().zip(results.iter()) {
+                if p.timed_out || w.timed_out || p.code != Some(0) {
+                    o.count("prec:pinned-reports-error");
+                    continue;
+                }
+                o.count("prec:compared");
+                distinct.insert(format!("prec|{}|{}|{}|{}|{}", si, v, e, se, route));
+                if !(w.code == Some(0) && w.stdout == p.stdout) {
+                    o.direct_failures.push(json!({"sig": "c09:differs-from-pinned-release", "what": format!("which style edition is in force: version={} edition={} style_edition={} given {}: the working tree's text differs from the pinned release's", v, e, se, ["on --config", "in a configuration file", "as version in a file and --edition / --style-edition flags"][*route]), "program": format!("precedence-source-{}", si), "config": format!("version={},edition={},style_edition={},route={}", v, e, se, route), "src": srcs[*si], "pinned": String::from_utf8_lossy(&p.stdout), "working_tree": String::from_utf8_lossy(&w.stdout), "working_tree_status": format!("{:?}", w.code)}));
+                }
+            }
+        } else {
+            o.notes.push(format!("binary {} not found: precedence family skipped", bin));
         }
     }
     o.count_n("cases_where_2021_and_2024_differ", nontrivial);
